@@ -31,7 +31,11 @@ ASSUMPTIONS = ["no conditioning predicate: the biased estimator is positive defi
                "or a valid one on another record / on the same record object with another order); only the in-domain call is judged, the earlier calls may do whatever they do; numpy's error "
                "state / print options, the warnings filter list and the spectrum module-level globals are snapshotted around every "
                "API call only to name the earlier call to blame in the message, and are put back at the end of the case so that the "
-               "cases stay independent and every failing case replays from its own params"]
+               "cases stay independent and every failing case replays from its own params",
+               "'reuse' cases: float32 / complex64 records occur only as EARLIER records of a history and are judged by history "
+               "independence alone (bit-for-bit equal to aryule and to a fresh object), not by the double-precision clause tolerances; "
+               ".ar / .reflection are read after a computation (p() or p.psd) - the library fills them lazily, a read before the "
+               "computation is not an observation of the current record; sides / scale_by_freq are left at their defaults"]
 RULE = ("non-zero real/complex data (noise, tones + noise, trends, integer-valued as float64 / int64 / int32 / int16 / int8 / uint8 "
         "arrays and as Python lists, complex dtype with zero imaginary part, exactly constant records, noise-free real / complex "
         "tones, alternating sign, single impulses and sparse records, N = 2) of length 2..200 (long records up to 1000) x orders "
@@ -45,7 +49,18 @@ RULE = ("non-zero real/complex data (noise, tones + noise, trends, integer-value
         "record (the tiny/huge classes above and the ordinary ones) on which aryule / pyule (.ar, .reflection, .psd) / lpc / ma "
         "must return bit-for-bit what they return in a fresh state (reference taken before the earlier calls, or - 'ref: restored' - "
         "recomputed afterwards with the pre-sequence numpy error state), aryule after the sequence is compared with the Lean model, "
-        "and every clause of the yule and lpc oracles is then evaluated on that record in the state the sequence left behind")
+        "and every clause of the yule and lpc oracles is then evaluated on that record in the state the sequence left behind.  "
+        "Kind 'reuse' = ONE pyule object re-used (observation points pyule.ar / .reflection): a history of p.data = record "
+        "(2..4 records; consecutive records of exactly the SAME length but another kind - all ordered pairs of float64 / complex128 / "
+        "complex with zero imaginary part / int64 / int32 / int16 / int8 / uint8 / float32 / complex64 / lists of int, float, "
+        "complex occur in the quick tier - and records of other lengths), p.ar_order, p.NFFT, p.sampling assignments, an all-zero "
+        "record or an order >= N / < 0 computed inside try/except, another pyule object computed in between, interleaved with "
+        "reads (p() or p.psd, then .ar / .reflection / .psd; assignments also chained without a read); after EVERY read the "
+        "observations must equal bit-for-bit aryule(current record, current order) and a fresh pyule(record, order, NFFT, sampling) "
+        "read the same way, be stable (roots, |k| < 1), satisfy the Yule-Walker normal equations with the numpy biased "
+        "autocorrelation of the record assigned (1e-11), imply a positive noise variance equal to aryule's, and give the PSD "
+        "P/(fs |A|^2) > 0 (1e-9); the final .ar / .reflection are compared with the Lean model of aryule on the final record; "
+        "no record handed to the object may be modified")
 
 
 def _sp():
@@ -867,6 +882,7 @@ def gen(rng, nrng, tier):
     # (after everything else: the random streams of the cases above are what they were before these classes were added)
     yield from gen_extreme(nrng, tier)
     yield from gen_seq(nrng, tier)
+    yield from gen_reuse(nrng, tier)
 
 
 # ---- records with an extreme dynamic range inside the record (still non-zero data of the quantifier's classes) -------------
@@ -1047,3 +1063,348 @@ def gen_seq(nrng, tier):
             if variant:
                 q["variant"] = variant
             yield ("seq", q)
+
+
+# ---- ONE pyule object re-used: histories of data / order / NFFT / sampling assignments interleaved with reads ----------------
+# The observation points pyule.ar / pyule.reflection (and the PSD of the model) are stated for the data the estimator holds, with
+# no reservation about what the object held before: after `p.data = z` (and `p.ar_order = k`, `p.NFFT = n`) and a computation
+# (p() or reading p.psd - .ar / .reflection are filled by the computation), every observation must be that of a fresh
+# pyule(z, k, NFFT=n) and of aryule(z, k), and must satisfy the clauses of the property for z.  Records that follow each other
+# have exactly the SAME length but another kind (float64 / complex128 / complex with zero imaginary part / every integer width /
+# float32 / complex64 / Python lists of int, float, complex - all ordered pairs), or another length.
+
+REUSE_KINDS = ["f64", "int64", "c128", "list-int", "czero", "f32", "int16", "list-float", "uint8", "c64", "int32", "list-complex", "int8"]
+_REUSE_FINAL = [k for k in REUSE_KINDS if k not in ("f32", "c64")]      # the single-precision kinds only occur as EARLIER records
+
+
+def _coarse(kind):
+    return ("single" if kind in ("f32", "c64") else "int" if "int" in kind else
+            "complex" if kind in ("c128", "czero", "list-complex") else "real")
+
+
+def reuse_record(nrng, N, kind, i):
+    """a non-zero record of length N of the given kind (noise / tone + noise / trend; float kinds have fractional values at one
+    of the amplitudes 0.3 / 1 / 40, integer kinds the amplitude of their width)"""
+    cplx = kind in ("c128", "c64", "list-complex")
+    b = _base_record(nrng, N, cplx, i)
+    if "int" in kind:
+        amp = {"int64": 3e6, "int32": 1e5, "int16": 8000.0, "int8": 50.0, "uint8": 50.0, "list-int": 9.0}[kind]
+        v = np.round(amp * b.real / 2)
+        if kind == "uint8":
+            v = v + 128
+        if not np.any(v):
+            v[0] = 1
+        if kind == "list-int":
+            return [int(t) for t in v]
+        dt = np.dtype(kind)
+        return np.clip(v, np.iinfo(dt).min, np.iinfo(dt).max).astype(dt)
+    b = b * (0.3, 1.0, 40.0)[int(nrng.integers(0, 3))]
+    if kind == "f64":
+        return b
+    if kind == "c128":
+        return b
+    if kind == "czero":
+        return b.astype(complex)
+    if kind == "f32":
+        return b.astype(np.float32)
+    if kind == "c64":
+        return b.astype(np.complex64)
+    if kind == "list-float":
+        return [float(t) for t in b]
+    if kind == "list-complex":
+        return [complex(t) for t in b]
+    raise ValueError(kind)
+
+
+def _reuse_steps(p):
+    """the history with the case's own final record in place of "@x" """
+    return [dict(s, x=p["x"]) if isinstance(s.get("x"), str) and s["x"] == "@x" else s for s in p["steps"]]
+
+
+def _rec_desc(r):
+    return "%s[%d]" % (_inkind(r), len(r))
+
+
+def _read(q, how):
+    """bring the estimate up to date (.ar / .reflection are filled by the computation) and return copies of the observations"""
+    if how == "call":
+        q()
+    psd = np.array(q.psd)
+    return np.array(q.ar), np.array(q.reflection), psd
+
+
+def _same(u, v):
+    u, v = np.asarray(u), np.asarray(v)
+    return u.shape == v.shape and np.array_equal(u, v, equal_nan=True)
+
+
+def _reuse_run(p, judge=None):
+    """runs the history on one object; judge(obj, state, hist) is called after every step that reads.  Returns the object and
+    the final state."""
+    sp = _sp()
+    st = {"x": p["x0"], "order": p["order0"], "nfft": p["nfft0"], "sampling": 1.0}
+    obj = sp.pyule(p["x0"], p["order0"], NFFT=p["nfft0"], scale_by_freq=False)
+    if st["nfft"] is None:
+        st["nfft"] = len(p["x0"])
+    hist = ["pyule(%s, %d, NFFT=%r)" % (_rec_desc(p["x0"]), p["order0"], p["nfft0"])]
+    steps = [{"op": "init", "read": p.get("read0")}] + _reuse_steps(p)
+    for s in steps:
+        op = s["op"]
+        if op == "data":
+            obj.data = s["x"]
+            st["x"] = s["x"]
+            hist.append(".data = %s" % _rec_desc(s["x"]))
+        elif op == "order":
+            obj.ar_order = s["v"]
+            st["order"] = s["v"]
+            hist.append(".ar_order = %d" % s["v"])
+        elif op == "nfft":
+            obj.NFFT = s["v"]
+            st["nfft"] = s["v"]
+            hist.append(".NFFT = %d" % s["v"])
+        elif op == "sampling":
+            obj.sampling = s["v"]
+            st["sampling"] = s["v"]
+            hist.append(".sampling = %r" % s["v"])
+        elif op == "bad-data":
+            # a failing / out-of-domain computation inside the history (all-zero record of the current length): whatever it
+            # does is ignored; the next step assigns an in-domain record
+            try:
+                obj.data = s["x"]
+                obj()
+                obj.psd
+                oc = "returned"
+            except Exception as e:      # noqa: BLE001
+                oc = "raised " + type(e).__name__
+            st["x"] = None
+            hist.append(".data = all-zero %s; () %s" % (_rec_desc(s["x"]), oc))
+        elif op == "bad-order":
+            try:
+                obj.ar_order = s["v"]
+                obj()
+                obj.psd
+                oc = "returned"
+            except Exception as e:      # noqa: BLE001
+                oc = "raised " + type(e).__name__
+            st["order"] = None
+            hist.append(".ar_order = %d; () %s" % (s["v"], oc))
+        elif op == "other":
+            # another estimator object on another record, computed in between (nothing is shared between objects)
+            o2 = sp.pyule(s["x"], s["order"], NFFT=s.get("nfft"))
+            o2()
+            o2.psd
+            hist.append("[other object pyule(%s, %d)()]" % (_rec_desc(s["x"]), s["order"]))
+        elif op != "init":
+            raise ValueError("harness: unknown step %r" % op)
+        if s.get("read") and judge is not None:
+            if st["x"] is None or st["order"] is None:
+                raise ValueError("harness: read in an out-of-domain state")
+            hist.append({"call": "(); .psd", "psd": ".psd"}[s["read"]])
+            judge(obj, st, s["read"], hist)
+    return obj, st
+
+
+def impl_reuse(p):
+    """.ar / .reflection of the re-used object at the end of the history (compared with the Lean model of aryule on the final
+    record and order; the model's noise variance has no counterpart on the object and is dropped in post_reuse)"""
+    obj, st = _reuse_run(p)
+    obj()
+    return [c(obj.ar), c(obj.reflection)]
+
+
+def post_reuse(p, iv, mv):
+    if len(mv) == 3:
+        mv = [mv[0], mv[2]]
+    return iv, mv
+
+
+def oracle_reuse(p):
+    sp = _sp()
+    out = []
+    steps = _reuse_steps(p)
+    recs = [p["x0"]] + [s["x"] for s in steps if s["op"] in ("data", "bad-data", "other")]
+    snaps = [_snap(r) for r in recs]
+    last = [s for s in steps if s["op"] == "data"]
+    if not last or last[-1]["x"] is not p["x"]:
+        return ["harness: the last data assignment of a 'reuse' case must be the case's record x"]
+
+    def judge(obj, st, how, hist):
+        xin, order, nfft, T = st["x"], st["order"], st["nfft"], st["sampling"]
+        xv = _values(xin)
+        N = len(xv)
+        cplx = np.iscomplexobj(xv)
+        h = " -> ".join(hist)
+        what = "N=%d order=%d %s %s; ONE pyule object, history: %s" % (N, order, "complex" if cplx else "real", _inkind(xin), h[-700:])
+        qa, qk, psd = _read(obj, how)
+        held = np.asarray(obj.data)
+        note = ""
+        if held.shape != np.asarray(xin).shape or not np.array_equal(held, np.asarray(xin)):
+            with np.errstate(all="ignore"):
+                dd = float(np.max(np.abs(_values(held) - xv))) if held.shape == xv.shape else float("nan")
+            note = " [the object holds a %s record of length %d that differs from the record assigned (%s) by max %.3g]" % (
+                held.dtype, held.size, _inkind(xin), dd)
+        # (1) the function interface on the record the object was given: the same deterministic computation -> bit-for-bit
+        #     (worst difference on the unchanged tree, quick seeds 0..4 and thorough: exactly 0)
+        a, P, k = sp.aryule(xin, order)
+        if not (_same(qa, a) and _same(qk, k)):
+            with np.errstate(all="ignore"):
+                da = rel(c(qa), c(a)) if np.asarray(qa).shape == np.asarray(a).shape else float("inf")
+                dk = rel(c(qk), c(k)) if np.asarray(qk).shape == np.asarray(k).shape else float("inf")
+            out.append("re-used pyule: .ar / .reflection differ from aryule(record, order) by %.2e / %.2e%s (%s)" % (da, dk, note, what))
+        # (2) a fresh object with the same record, order, NFFT and sampling, read the same way: bit-for-bit
+        f = sp.pyule(xin, order, NFFT=nfft, sampling=T, scale_by_freq=False)
+        fa, fk, fpsd = _read(f, how)
+        if not (_same(qa, fa) and _same(qk, fk) and _same(psd, fpsd)):
+            with np.errstate(all="ignore"):
+                dp = rel(psd, fpsd) if psd.shape == fpsd.shape else float("inf")
+            out.append("re-used pyule: .ar / .reflection / .psd differ from those of a fresh pyule(record, %d, NFFT=%d) "
+                       "(psd: %.2e, shapes %r / %r)%s (%s)" % (order, nfft, dp, psd.shape, fpsd.shape, note, what))
+        if np.asarray(xin).dtype in (np.float32, np.complex64):
+            return          # single-precision records: history independence only (the clauses below carry double tolerances)
+        # (3) the clauses of the property on the object's observations, against numpy references on the record assigned
+        qa_, qk_ = c(qa), c(qk)
+        if len(qa_) != order or len(qk_) != order:
+            out.append("re-used pyule: %d coefficients for order %d%s (%s)" % (len(qa_), order, note, what))
+            return
+        if not (np.all(np.isfinite(qa_)) and np.all(np.isfinite(qk_))):
+            out.append("re-used pyule: non-finite .ar / .reflection%s (%s)" % (note, what))
+            return
+        rho = float(np.max(np.abs(np.roots(np.concatenate(([1], qa_))))))
+        if rho >= 1 or not np.all(np.abs(qk_) < 1):
+            out.append("re-used pyule: .ar not stable / .reflection of modulus >= 1: max|root| %.8f%s (%s)" % (rho, note, what))
+        ri = _acf(xv, order)
+        r0 = float(ri[0].real)
+        rr = np.concatenate((np.conj(ri[:0:-1]), ri))
+        ne = np.array([rr[order + kk] + np.dot(qa_, rr[order + kk - 1 - np.arange(order)]) for kk in range(order + 1)])
+        Pm = float(ne[0].real)          # the noise variance the model implies: r_0 + sum a_j r_{-j}
+        # tolerances of clauses (b) and (g) of the 'yule' oracle (the same quantities of the same computation; worst observed
+        # on the 2145 re-use cases of the unchanged tree, quick + thorough generators, 5 seeds: normal equations 5.4e-16 (limit
+        # 1e-11), PSD exactly 0 (limit 1e-9), variance ratio / max(1, r_0/P) 1.5e-15 (limit 1e-7); statistics kept in _STATS)
+        ne_err = float(np.max(np.abs(ne[1:]))) / (r0 * (1 + float(np.sum(np.abs(qa_))))) if order else 0.0
+        if not ne_err <= 1e-11:
+            out.append("re-used pyule: .ar does not match the biased sample autocorrelation of the record (Yule-Walker normal "
+                       "equations, residual %.2e)%s (%s)" % (ne_err, note, what))
+        if not (Pm > 0 and np.real(P) > 0 and abs(Pm / float(np.real(P)) - 1) <= 1e-7 * max(1.0, r0 / Pm)):
+            out.append("re-used pyule: noise variance implied by .ar (%.6g) is not positive / not that of aryule (%.6g)%s (%s)" % (
+                Pm, float(np.real(P)), note, what))
+        ref = float(np.real(P)) / T / np.abs(np.fft.fft(np.concatenate(([1], qa_)), nfft)) ** 2
+        exp_psd = ref if cplx else 2 * ref[:nfft // 2 + 1]
+        if psd.shape != exp_psd.shape or not (np.all(psd > 0) and rel(psd, exp_psd) <= 1e-9):
+            out.append("re-used pyule: PSD is not P/(fs |A(f)|^2) of the Yule-Walker model of the record: %.2e (NFFT %d, shape %r, expected %r)%s (%s)" % (
+                rel(psd, exp_psd) if psd.shape == exp_psd.shape else float("inf"), nfft, psd.shape, exp_psd.shape, note, what))
+        _STATS["ne"] = max(_STATS.get("ne", 0.0), ne_err)
+        _STATS["psd"] = max(_STATS.get("psd", 0.0), rel(psd, exp_psd) if psd.shape == exp_psd.shape else 0.0)
+        _STATS["P"] = max(_STATS.get("P", 0.0), abs(Pm / float(np.real(P)) - 1) / max(1.0, r0 / Pm) if Pm > 0 else 0.0)
+
+    try:
+        obj, st = _reuse_run(p, judge)
+    except Exception as e:              # noqa: BLE001
+        if isinstance(e, ValueError) and str(e).startswith("harness"):
+            return [str(e)]
+        out.append("re-used pyule: the history raised %s: %s (first record %s, %d steps)" % (
+            type(e).__name__, str(e)[:120], _rec_desc(p["x0"]), len(steps)))
+        return out
+    if st["order"] != p["order"]:
+        return ["harness: final order of the history %r != order %r" % (st["order"], p["order"])]
+    for r, s in zip(recs, snaps):
+        if not _unchanged(r, s):
+            out.append("re-used pyule: a record handed to the object was modified (%s)" % _rec_desc(r))
+    return out
+
+
+_STATS = {}
+
+
+def _reuse_kinds(p):
+    return [_rkind(p["x0"])] + [_rkind(s["x"]) for s in _reuse_steps(p) if s["op"] == "data"]
+
+
+def _rkind(r):
+    k = _inkind(r)
+    if k == "complex128" and not np.any(np.asarray(r).imag):
+        return "czero"
+    return k
+
+
+def _ckind(r):
+    k = _rkind(r)
+    return ("single" if k in ("float32", "complex64") else "int" if "int" in k else
+            "complex(im=0)" if k == "czero" else "complex" if "complex" in k else "real")
+
+
+def _tags_reuse(p):
+    steps = _reuse_steps(p)
+    t = ["reuse", "reuse-steps:%d" % len(steps)] + sorted(set("reuse-op:" + s["op"] for s in steps)) + _tags_common(p)
+    prev = p["x0"]
+    tr = set()
+    for s in steps:
+        if s["op"] in ("data", "bad-data"):
+            if s["op"] == "data":
+                tr.add("reuse-trans:%s->%s:%s" % (_ckind(prev), _ckind(s["x"]), "same-length" if len(prev) == len(s["x"]) else "other-length"))
+            prev = s["x"]
+    return t + sorted(tr)
+
+
+KINDS["reuse"] = {"impl": _guarded(impl_reuse), "model": model_yule, "post": post_reuse, "oracle": _guarded(oracle_reuse),
+                  "rtol": 1e-7, "atol": 1e-300,
+                  "key": lambda p: "reuse|%s|%d|%s" % (">".join(_reuse_kinds(p)), len(p["steps"]), _key(p)),
+                  "nontrivial": lambda p: p["order"] >= 2, "tags": _tags_reuse}
+
+
+def gen_reuse(nrng, tier):
+    """histories on one object.  The ordered pairs (kind of the record held, kind of the next record of the SAME length) are
+    enumerated, so that every pair occurs in the quick tier; lengths, orders, NFFT, reads and the other steps are random."""
+    K, F = REUSE_KINDS, _REUSE_FINAL
+    pairs = [(a, b) for b in F for a in K]                       # (earlier kind, final kind): 13 x 11
+    nfs = (32, 33, 64, 65, 128, 255, 256)
+    reps = len(pairs) if tier == "quick" else 2 * len(pairs)
+    for i in range(reps):
+        ka, kb = pairs[i % len(pairs)]
+        N = int(nrng.integers(3, 13)) if i % 3 == 0 else int(nrng.integers(3, 201))
+        nrec = 2 + int(nrng.integers(0, 3)) if i % 2 else 2         # records in the history (the last two: ka -> kb, same length)
+        Ns = [N] * nrec
+        kinds = [ka, kb] if nrec == 2 else [K[int(j)] for j in nrng.integers(0, len(K), nrec - 2)] + [ka, kb]
+        for j in range(nrec - 2):
+            if nrng.integers(0, 2):
+                Ns[j] = int(nrng.integers(3, 201))                  # an earlier record of another length
+        if i % 7 == 6:
+            Ns[-1] = max(3, N + int(nrng.integers(-2, 3)))          # the final record has (possibly) another length as well
+        omax = min(min(Ns) - 1, 30)
+        rorder = lambda: (omax, 1, int(nrng.integers(1, omax + 1)), int(nrng.integers(1, min(omax, 6) + 1)))[int(nrng.integers(0, 4))]  # noqa: E731
+        rread = lambda: (None, "psd", "call", "psd")[int(nrng.integers(0, 4))]    # noqa: E731
+        recs = [reuse_record(nrng, Ns[j], kinds[j], i + j) for j in range(nrec)]
+        order = rorder()
+        p = {"x0": recs[0], "order0": order, "nfft0": (None, nfs[i % 7])[int(nrng.integers(0, 2))], "read0": ("psd", "call", None)[i % 3],
+             "dkind": ("noise", "tone", "trend")[(i + nrec - 1) % 3]}
+        steps = []
+        for j in range(1, nrec):
+            # optional steps before the next record
+            w = int(nrng.integers(0, 8))
+            if w == 0:
+                order = rorder()
+                steps.append({"op": "order", "v": order, "read": rread()})
+            elif w == 1:
+                steps.append({"op": "nfft", "v": int(nfs[int(nrng.integers(0, 7))]), "read": rread()})
+            elif w == 2:
+                steps.append({"op": "bad-data", "x": np.zeros(Ns[j], dtype=(float, complex, int)[int(nrng.integers(0, 3))]), "read": None})
+            elif w == 3:
+                steps.append({"op": "bad-order", "v": (Ns[j - 1] + 2, -1)[int(nrng.integers(0, 2))], "read": None})
+                order = rorder()
+                steps.append({"op": "order", "v": order, "read": None})
+            elif w == 4:
+                No = int(nrng.integers(4, 40))
+                steps.append({"op": "other", "x": reuse_record(nrng, No, K[int(nrng.integers(0, len(K)))], i), "order": int(nrng.integers(1, min(No - 1, 6) + 1)),
+                              "read": rread()})
+            elif w == 5:
+                steps.append({"op": "sampling", "v": (2.0, 0.5, 1.0, 1024.0)[int(nrng.integers(0, 4))], "read": rread()})
+            last = j == nrec - 1
+            steps.append({"op": "data", "x": "@x" if last else recs[j], "read": "call" if (last and i % 2) else ("psd" if last else rread())})
+        # after the final record: possibly an order / NFFT change on the same record (always read)
+        w = int(nrng.integers(0, 4))
+        if w == 0:
+            order = rorder()
+            steps.append({"op": "order", "v": order, "read": ("psd", "call")[i % 2]})
+        elif w == 1:
+            steps.append({"op": "nfft", "v": int(nfs[int(nrng.integers(0, 7))]), "read": ("call", "psd")[i % 2]})
+        p.update({"steps": steps, "x": recs[-1], "order": order, "exact": _dyadic(recs[-1], order)})
+        yield ("reuse", p)
